@@ -1464,6 +1464,11 @@ class RulesMixin:
                 else:
                     b = z3.Bool(ctx.fresh_name(f"bound({name})@{label}"))
                     fr.locals[name] = MaybeUnbound(b, val)
+            elif name in fr.locals and fr.locals[name] is None:
+                # None before the loop, assigned inside it, no declared type: unknown afterwards --
+                # fine as long as every read is preceded by an assignment on the same path (a read
+                # of the unknown value leaves the supported subset and is reported as such)
+                fr.locals[name] = MaybeUnbound(z3.BoolVal(True), LazyUnknown(f"{label}: local '{name}' (None before the loop) is read after being assigned in an earlier iteration; give its type in loops[{ordinal}]['locals']"))
             elif name in fr.locals and not isinstance(fr.locals[name], MaybeUnbound):
                 cur = fr.locals[name]
                 new = self.havoc_like(cur, f"{name}@{label}")
